@@ -70,7 +70,7 @@ pub(crate) fn parse_yes_or_no<T: AsRef<str>>(s: T) -> crate::Result<bool> {
 /// Therefore it is safe to simply remove any occurence of those characters.
 /// [rfc8216#section-4.2](https://tools.ietf.org/html/rfc8216#section-4.2)
 pub(crate) fn unquote(value: &str) -> Cow<'_, str> {
-    if value.starts_with('"') && value.ends_with('"') {
+    if value.len() >= 2 && value.starts_with('"') && value.ends_with('"') {
         let result = Cow::Borrowed(&value[1..value.len() - 1]);
 
         if !result.chars().any(|c| c == '"' || c == '\n' || c == '\r') {
